@@ -57,8 +57,96 @@ fn relax_history(input: &Tree) -> Result<Tree, String> {
     Ok(ok(L(out)))
 }
 
+fn anyerr(kind: &str, e: &anyhow::Error) -> Tree {
+    err(kind, &format!("{e:#}"))
+}
+
+/// as_min: instance -> ok instance (panics are caught by the driver)
+fn as_min(input: &Tree) -> Result<Tree, String> {
+    let mut ins = d_instance(input)?;
+    ins.as_minimization_problem();
+    Ok(ok(e_instance(&ins)))
+}
+
+/// penalty / uniform_penalty: instance -> ok parametric instance | err
+fn penalty(input: &Tree, uniform: bool) -> Result<Tree, String> {
+    let ins = d_instance(input)?;
+    let r = if uniform {
+        ins.uniform_penalty_method()
+    } else {
+        ins.penalty_method()
+    };
+    Ok(match r {
+        Ok(p) => ok(e_parametric(&p)),
+        Err(e) => anyerr("penalty", &e),
+    })
+}
+
+/// with_parameters: [parametric instance, [[id, value]..]] -> ok instance | err
+fn with_parameters(input: &Tree) -> Result<Tree, String> {
+    let xs = input.as_list()?;
+    let p = d_parametric(&xs[0])?;
+    let mut ps = ommx::v1::Parameters::default();
+    ps.entries = d_entries(&xs[1])?;
+    Ok(match p.with_parameters(ps) {
+        Ok(i) => ok(e_instance(&i)),
+        Err(e) => anyerr("with_parameters", &e),
+    })
+}
+
+/// of_instance_roundtrip: instance -> with_parameters(ParametricInstance::from(instance), {})
+fn of_instance_roundtrip(input: &Tree) -> Result<Tree, String> {
+    let ins = d_instance(input)?;
+    let p: ommx::v1::ParametricInstance = ins.into();
+    Ok(match p.clone().with_parameters(ommx::v1::Parameters::default()) {
+        Ok(i) => ok(L(vec![e_parametric(&p), e_instance(&i)])),
+        Err(e) => anyerr("with_parameters", &e),
+    })
+}
+
+fn pubo(input: &Tree) -> Result<Tree, String> {
+    let ins = d_instance(input)?;
+    Ok(match ins.as_pubo_format() {
+        Ok(m) => ok(list(m.iter(), |(k, c)| {
+            L(vec![list(k.iter(), |x| u(*x)), f(*c)])
+        })),
+        Err(e) => anyerr("pubo", &e),
+    })
+}
+
+fn qubo(input: &Tree) -> Result<Tree, String> {
+    let ins = d_instance(input)?;
+    Ok(match ins.as_qubo_format() {
+        Ok((m, c)) => ok(L(vec![
+            list(m.iter(), |(k, c)| L(vec![L(vec![u(k.0), u(k.1)]), f(*c)])),
+            f(c),
+        ])),
+        Err(e) => anyerr("qubo", &e),
+    })
+}
+
+/// log_encode: [instance, id] -> [ok linear | err, instance afterwards]
+fn log_encode(input: &Tree) -> Result<Tree, String> {
+    let xs = input.as_list()?;
+    let mut ins = d_instance(&xs[0])?;
+    let id = xs[1].as_u64()?;
+    let r = match ins.log_encode(id) {
+        Ok(l) => ok(e_linear(&l)),
+        Err(e) => anyerr("log_encode", &e),
+    };
+    Ok(L(vec![r, e_instance(&ins)]))
+}
+
 pub fn dispatch(op: &str, input: &Tree) -> Option<Result<Tree, String>> {
     match op {
+        "as_min" => Some(as_min(input)),
+        "penalty" => Some(penalty(input, false)),
+        "uniform_penalty" => Some(penalty(input, true)),
+        "with_parameters" => Some(with_parameters(input)),
+        "of_instance_roundtrip" => Some(of_instance_roundtrip(input)),
+        "as_pubo" => Some(pubo(input)),
+        "as_qubo" => Some(qubo(input)),
+        "log_encode" => Some(log_encode(input)),
         "inst_evaluate" => Some(inst_evaluate(input)),
         "relax_history" => Some(relax_history(input)),
         _ => None,
